@@ -43,6 +43,10 @@ func childInit() {
 	if os.Getenv(childEnv) == "" {
 		return
 	}
+	if os.Getenv(childEnv) == "trickle" {
+		childTrickle()
+		os.Exit(0)
+	}
 	var hdrs []string
 	if err := json.NewDecoder(os.Stdin).Decode(&hdrs); err != nil {
 		fmt.Fprintln(os.Stderr, "child: bad input:", err)
